@@ -129,3 +129,13 @@ Theorem C16_ghost_run_projects : forall d rs ws sched,
   fst (grun (ginit d rs ws) sched) = prun TicketLocked (pinit d rs ws) sched.
 Proof. exact grun_projects. Qed.
 Print Assumptions C16_ghost_run_projects.
+
+(* ---- many keys (CacheMulti.v): the counters of started and completed writes are shared by all keys,
+   the data layer and the cache are maps; under every schedule, evictions included, whenever no write
+   is in progress the cache holds, for EVERY key, nothing or what the data layer holds *)
+From Akd Require Import CacheMulti.
+Theorem C16_many_keys_coherent : forall d rs ws sched,
+  let s := mrun (minit d rs ws) sched in
+  m_started s = m_completed s -> forall x, m_cache s x = None \/ m_cache s x = Some (m_db s x).
+Proof. exact many_keys_coherent. Qed.
+Print Assumptions C16_many_keys_coherent.
